@@ -427,6 +427,10 @@ func checkC09(c *runCtx) {
 		{"srflx via UDPMuxSrflx (universal mux)", gatherCfg{Ifaces: gIfacesBasic, NetTypes: []string{"udp4"}, CandTypes: []string{"srflx"}, URLs: []string{stunURL}, UDPMuxSrflx: "10.0.0.1:7002", Depth: depth}},
 		{"srflx mapped by a rewrite rule whose externals include a filtered (link-local) one", gatherCfg{Ifaces: []gIface{{Name: "eth0", Up: true, Addrs: []string{"10.0.0.1", "2001:db8::1"}}}, NetTypes: []string{"udp4", "udp6"}, CandTypes: []string{"host", "srflx"},
 			Rewrite: []AddressRewriteRule{{External: []string{"203.0.113.5", "203.0.113.6", "2001:db8:e::1", "fe80::1", "2001:db8:e::2"}, AsCandidateType: CandidateTypeServerReflexive}}, Depth: depth - 2}},
+		{"relay with externals appended by a rewrite rule (three candidates on one allocation)", gatherCfg{Ifaces: gIfacesBasic, NetTypes: []string{"udp4"}, CandTypes: []string{"relay"}, URLs: []string{turnURL},
+			Rewrite: []AddressRewriteRule{{External: []string{"203.0.113.30", "203.0.113.31"}, AsCandidateType: CandidateTypeRelay, Mode: AddressRewriteAppend}}, Depth: depth - 1}},
+		{"relay dropped by a replace rule without externals (rule installed directly)", gatherCfg{Ifaces: gIfacesBasic, NetTypes: []string{"udp4"}, CandTypes: []string{"relay"}, URLs: []string{turnURL},
+			RewriteRaw: []AddressRewriteRule{{AsCandidateType: CandidateTypeRelay, Mode: AddressRewriteReplace}}, Depth: depth - 1}},
 		{"host + srflx + relay, started agent (Failed reachable)", gatherCfg{Ifaces: gIfacesBasic, NetTypes: []string{"udp4"}, CandTypes: []string{"host", "srflx", "relay"}, URLs: []string{stunURL, turnURL}, Depth: depth - 1, Start: true}},
 	}
 	if !c.quick() {
